@@ -1212,16 +1212,33 @@ impl DhtNetworkManager {
         );
 
         let mut seen_peer_ids: HashSet<String> = HashSet::new();
+        // One entry per peer: the routing table knows a peer by its DHT key, the
+        // connected-peer map by its peer id. Both describe the same node, and only
+        // the peer id can be dialled, so entries are de-duplicated on the DHT key
+        // and routing-table entries are named by the peer id we know them under.
+        let mut seen_dht_keys: HashSet<[u8; 32]> = HashSet::new();
         let mut all_nodes: Vec<DHTNode> = Vec::new();
 
-        // 1. Check local routing table
+        // 1. Check local routing table (lock order: dht, then dht_peers)
         {
             let dht_guard = self.dht.read().await;
             match dht_guard.find_nodes(&DhtKey::from_bytes(*key), count).await {
                 Ok(nodes) => {
+                    let peers = self.dht_peers.read().await;
+                    let peer_id_by_key: HashMap<[u8; 32], &PeerId> = peers
+                        .iter()
+                        .map(|(peer_id, info)| (info.dht_key, peer_id))
+                        .collect();
                     for node in nodes {
-                        let id = node.id.to_string();
-                        if self.is_local_peer_id(&id) {
+                        let id = match peer_id_by_key.get(node.id.as_bytes()) {
+                            Some(peer_id) => (*peer_id).clone(),
+                            None => node.id.to_string(),
+                        };
+                        if self.is_local_peer_id(&id) || self.is_local_peer_id(&node.id.to_string())
+                        {
+                            continue;
+                        }
+                        if !seen_dht_keys.insert(*node.id.as_bytes()) {
                             continue;
                         }
                         if seen_peer_ids.insert(id.clone()) {
@@ -1249,6 +1266,9 @@ impl DhtNetworkManager {
                     continue;
                 }
                 if self.is_local_peer_id(peer_id) {
+                    continue;
+                }
+                if !seen_dht_keys.insert(peer_info.dht_key) {
                     continue;
                 }
                 if !seen_peer_ids.insert(peer_id.clone()) {
